@@ -154,6 +154,12 @@ def concretize(d):
         cmds = [W.alpha[i] for i in d[2]]
         return dict(tool="btcdeb_tty", bin="btcdeb_tty", argv=list(argv), stdin="".join(c + "\n" for c in cmds), env={},
                     base="tty/" + sid, kind="cmdseq-len%d" % len(cmds), desc=" ; ".join(repr(c) for c in cmds) or "(no commands)")
+    if t == "H":
+        # the working directory does not allow the REPL to write its history file (.btcdeb_history is a directory there)
+        sid, argv = W.sess[d[1]]
+        cmds = list(d[2])
+        return dict(tool="btcdeb_tty", bin="btcdeb_tty", argv=list(argv), stdin="".join(c + "\n" for c in cmds), env={}, histdir=True,
+                    base="tty/" + sid + "@unwritable-history", kind="history-file-unwritable", desc=" ; ".join(repr(c) for c in cmds) or "(no commands)")
     if t == "X":
         sid, argv = W.sess[d[1]]
         line = W.xlines[d[2]]
@@ -187,6 +193,9 @@ def execute(ctxd, cwd, c, variant, _retry=False):
     else:
         cmd = [os.path.join(ctxd["bdir"], c["bin"])]
     cmd += c["argv"]
+    if c.get("histdir"):
+        cwd = os.path.join(cwd, "histdir")
+        os.makedirs(os.path.join(cwd, ".btcdeb_history"), exist_ok=True)
     sin = c["stdin"]
     try:
         p = subprocess.Popen(cmd, stdin=subprocess.PIPE if sin is not None else subprocess.DEVNULL, stdout=subprocess.PIPE,
@@ -688,6 +697,9 @@ def enumerate_space(ctx, bases, txs):
         for s in seqs:
             items.append((("T", si, s), "asan"))
             n_seq += 1
+    for si in range(min(3, len(sess))):
+        for seq in ((), ("step",), ("step", "rewind", "print"), ("tf sha256 01", "exec OP_1", "help")):
+            items.append((("H", si, seq), "asan"))
     n_tf = 0
     for si in range(min(6, len(sess))):     # the tf commands do not depend on the session: first six sessions only
         for ti in range(len(tfc)):
@@ -711,6 +723,11 @@ def enumerate_space(ctx, bases, txs):
             if tier == "thorough" or b.id in ("btcdeb/bracket", "btcdeb/auto-p2pkh", "btcdeb/flags-long", "btcdeb/z-OP_DIV",
                                                "btcdeb/sign-tx", "btcdeb/dataset-long"):
                 vg.append((("D", bi, sidx, 0), "valgrind"))   # deviation 0 of a slot = delete -> empty stdin
+        # hash-type deviations of signature arguments: uninitialised reads show under memcheck only
+        for si, s in enumerate(b.slots):
+            for di, (k, dd, r) in enumerate(per_all[bi][si]):
+                if k == "sig-hashtype":
+                    vg.append((("D", bi, si, di), "valgrind"))
         if tier == "thorough":
             for si, s in enumerate(b.slots):
                 devs = I.slot_deviations(b, si, tier)
